@@ -72,6 +72,20 @@ pub fn run(tier: &str) -> i32 {
     all.extend(crate::c05::io_host_space().into_iter().filter(|p| !p.key.contains("variant=2")));
     all.extend(lookalike_space());
     all.extend(named_members_space());
+    // declarations-only modules (no entry point)
+    {
+        let n0 = all.len();
+        for i in 0..n0 {
+            if (thorough || i % 11 == 0) && !all[i].src.contains("@vertex") && !all[i].src.contains("@fragment") {
+                if let Some(src) = without_entry_points(&all[i].src) {
+                    let mut q = all[i].clone();
+                    q.key = format!("no-entry|{}", q.key);
+                    q.src = src;
+                    all.push(q);
+                }
+            }
+        }
+    }
     // member / element types written through `alias` declarations
     {
         let n0 = all.len();
